@@ -340,6 +340,26 @@ async fn scenario(mon: &Monitor, rng: &mut Rng) {
         };
         let k = *rng.pick(&[0usize, 1, 2, 3, 8, 8, 16, 20, n_real + n_pup + 5]);
 
+        // connections drop: some of X's peers are disconnected at the transport (they stay in X's
+        // routing table and answer as soon as they are dialled again)
+        let mut dropped_conns = 0usize;
+        if rng.chance(0.35) {
+            for (pid, _k, conn, _a) in xn.mgr.verif_dht_peers().await {
+                if conn && dropped_conns < 3 && rng.chance(0.4) {
+                    // a closed connection is closed for both ends (the transport reports the loss to the
+                    // peer as well); a half-open link would make the peer unable to answer - a fault
+                    let _ = xn.transport.disconnect_peer(&pid).await;
+                    if let Some(pn) = spell.get(&pid).and_then(|i| eps[*i].node.as_ref()) {
+                        let _ = pn.transport.disconnect_peer(&xe.tid_hex).await;
+                    }
+                    dropped_conns += 1;
+                }
+            }
+            if dropped_conns > 0 {
+                settle(Duration::from_millis(10)).await;
+                mon.count("lookups.after_connection_drop", 1);
+            }
+        }
         // what X knows at call time
         let rt = xn.mgr.verif_routing_snapshot().await;
         let peers = xn.mgr.verif_dht_peers().await;
@@ -376,7 +396,7 @@ async fn scenario(mon: &Monitor, rng: &mut Rng) {
 
         let ctx = |extra: serde_json::Value| {
             json!({"topology": format!("{topo:?}"), "n_real": n_real, "puppets": eps[n_real..].iter().map(|e| format!("{:?}", e.lie)).collect::<Vec<_>>(),
-                   "fault_class": fault_class, "faulty": faulty.len(), "caller": hex8(&xe.tid), "key": hex::encode(key), "k": k,
+                   "fault_class": fault_class, "faulty": faulty.len(), "connections_dropped_before_lookup": dropped_conns, "caller": hex8(&xe.tid), "key": hex::encode(key), "k": k,
                    "virtual_ms": (returned - started).as_millis() as u64, "detail": extra})
         };
         let result = match res {
